@@ -46,8 +46,53 @@ fn schedules(threads: usize, steps: usize) -> Vec<Vec<usize>> {
     out
 }
 
+/// References made around operations that draw from the node's counters and then fail: `k` unlinks are queued behind a
+/// held connection (each has already drawn its id), a reference is made, the connection is closed so that all `k`
+/// fail, and more references are made. All references must be pairwise distinct.
+fn failing_unlinks_exec(k: &usize, ctx: &crate::explore::WorkerCtx) -> crate::explore::ExecResult {
+    let k = *k;
+    crate::c17::run_rt(async move {
+        let mut res = crate::explore::ExecResult::default();
+        let mut nw = match crate::c17::node_world(ctx, crate::c17::flags_default()).await {
+            Ok(x) => x,
+            Err(e) => { res.violations.push(("could not establish the connection under a conforming peer".into(), json!({"error": e}))); return res; }
+        };
+        nw.w.gates.set_active(&[]);
+        let me = nw.node.spawn(crate::procs::Rec { name: "me".into(), log: Arc::new(Mutex::new(vec![])) }).await.unwrap();
+        let conn = match nw.node.connections().get(crate::world::PEER_NAME).map(|c| Arc::clone(c.value())) { Some(c) => c, None => { res.violations.push(("connection not registered".into(), json!({}))); return res; } };
+        let mut refs: Vec<Vec<u32>> = vec![nw.node.make_reference().ids.clone()];
+        let done = Arc::new(Mutex::new(0usize));
+        {
+            let mut guard = conn.lock().await;
+            for i in 0..k {
+                let (node, me, done) = (nw.node.clone(), me.clone(), done.clone());
+                let to = erltf::types::ExternalPid::new(erltf::types::Atom::new(crate::world::PEER_NAME), 50 + i as u32, 0, crate::world::PEER_CREATION);
+                tokio::spawn(async move { let _ = node.unlink(&me, &to).await; *done.lock().unwrap() += 1; });
+                for _ in 0..50 { nw.w.yield_once().await; }
+                if i == k / 2 { refs.push(nw.node.make_reference().ids.clone()); }
+            }
+            refs.push(nw.node.make_reference().ids.clone());
+            let _ = guard.close().await;
+        }
+        let probe = { let d = done.clone(); move || *d.lock().unwrap() as u64 };
+        nw.w.settle(&mut nw.peer, &probe).await;
+        for _ in 0..6 { refs.push(nw.node.make_reference().ids.clone()); }
+        let mut sorted = refs.clone();
+        sorted.sort();
+        sorted.dedup();
+        if sorted.len() != refs.len() {
+            res.violations.push(("a reference was issued twice around operations that failed after drawing an identifier".into(), json!({"failing_unlinks_queued_behind_the_connection": k, "references": refs})));
+        }
+        res.steps = k as u64 + 1;
+        res.outcome = format!("failing unlinks {} refs {}", k, refs.len());
+        res
+    })
+}
+
 pub fn run(rep: &Report) -> Value {
-    let mut total = 0u64;
+    let ks: Vec<usize> = (0..=6).collect();
+    let st_u = crate::explore::for_all(rep, "references around failing unlinks", &ks, |k, ctx| failing_unlinks_exec(k, ctx));
+    let mut total = st_u.executions;
     let mut outcomes: HashSet<String> = HashSet::new();
     for threads in [2usize, 3] {
         for sched in schedules(threads, 3) {
@@ -95,6 +140,6 @@ pub fn run(rep: &Report) -> Value {
         "samples": [{"threads": 2, "schedule": [0, 1, 0, 1, 1, 0]}, {"threads": 3, "schedule": [2, 0, 1, 1, 0, 2, 2, 1, 0]}],
         "exhaustive": true,
         "distinct_outcomes": outcomes.len(),
-        "rule": "all interleavings of the three fetch_add segments of Node::make_reference for 2 threads (20 schedules) and 3 threads (1680 schedules), enforced by a baton passed at the sync_point hooks; references must be pairwise distinct and carry the node's creation; plus one sequential history of 3 (40) million references, all distinct",
+        "rule": "all interleavings of the three fetch_add segments of Node::make_reference for 2 threads (20 schedules) and 3 threads (1680 schedules), enforced by a baton passed at the sync_point hooks; references must be pairwise distinct and carry the node's creation; plus one sequential history of 3 (40) million references, all distinct; plus seven executions in which 0..6 unlinks queued behind a held connection fail after drawing their ids, with references made before, between and after",
     })
 }
